@@ -206,6 +206,7 @@ func runC01(e *env) {
 	}
 	shadow := map[string]bool{}
 	kindCollision := map[string]bool{}
+	fidCollision := map[string]bool{}         // module -> two types of other packages get one randdata function name
 	importedUnionPkgs := map[string][]string{} // module -> names of the other packages declaring a reached union
 	for i, o := range obs {
 		if shadowClass(o) != "" {
@@ -213,6 +214,19 @@ func runC01(e *env) {
 		}
 		if inputHasKindCollision(o) {
 			kindCollision[specs[i].Name] = true
+		}
+		seenFid := map[string]string{}
+		for _, n := range o.Nameds {
+			if n.PkgPath != o.RootPkg && !strings.Contains(n.ID, "[") {
+				short := n.PkgName
+				if len(short) > 3 {
+					short = short[:3]
+				}
+				if prev, ok := seenFid[short+"_"+n.Local]; ok && prev != n.ID {
+					fidCollision[specs[i].Name] = true
+				}
+				seenFid[short+"_"+n.Local] = n.ID
+			}
 		}
 		for _, n := range o.Nameds {
 			if n.Kind == "KdUnion" && n.PkgPath != o.RootPkg {
@@ -254,6 +268,9 @@ func runC01(e *env) {
 						cls = j.tgt + ":wrapper-of-an-imported-union"
 					}
 				}
+			}
+			if j.tgt == "randdata" && strings.HasSuffix(cls, ":other") && fidCollision[j.spec.Name] && strings.Contains(results[i][0], "cannot use rand") {
+				cls = j.tgt + ":function-name-collision-across-packages"
 			}
 			if j.spec.Class != "" && j.tgt == "gounions" {
 				cls = j.tgt + ":" + j.spec.Class
@@ -317,6 +334,8 @@ func corpusGoGen() []*modSpec {
 		mk("go-named-containers-of-an-imported-union", "package models\n\nimport \"example.com/org/models/sub\"\n\ntype L []sub.Shape\n\ntype M map[string]sub.Shape\n\ntype T struct {\n\tA int\n\tS L\n\tD M\n}\n", modFile{"sub/sub.go", "package sub\n\ntype Shape interface{ isShape() }\n\ntype Circle struct{ R int }\n\nfunc (Circle) isShape() {}\n"}),
 		mk("go-struct-field-of-an-imported-union", "package models\n\nimport \"example.com/org/models/sub\"\n\ntype T struct {\n\tA int\n\tS sub.Shape\n}\n", modFile{"sub/sub.go", "package sub\n\ntype Shape interface{ isShape() }\n\ntype Circle struct{ R int }\n\nfunc (Circle) isShape() {}\n"}),
 		mk("go-unexported-type-of-another-package", "package models\n\nimport \"example.com/org/models/sub\"\n\ntype S struct {\n\tV sub.Pub\n\tN int\n}\n", modFile{"sub/sub.go", "package sub\n\ntype hidden struct{ X int }\n\ntype level int\n\ntype Pub struct {\n\tH hidden\n\tL []hidden\n\tK level\n}\n"}),
+		mk("go-packages-sharing-their-first-three-letters", "package models\n\nimport (\n\t\"example.com/org/models/shapes\"\n\t\"example.com/org/models/shared\"\n)\n\ntype S struct {\n\tA shapes.Circle\n\tB shared.Circle\n}\n",
+			modFile{"shapes/shapes.go", "package shapes\n\ntype Circle struct{ R int }\n"}, modFile{"shared/shared.go", "package shared\n\ntype Circle struct{ Name string }\n"}),
 		mk("go-subpackage-types", "package models\n\nimport \"example.com/org/models/sub\"\n\ntype T struct {\n\tId int64\n\tE sub.E\n\tS sub.S\n\tL []sub.S\n}\n", modFile{"sub/sub.go", "package sub\n\ntype E int\n\nconst (\n\tEA E = iota\n\tEB\n)\n\ntype S struct{ X, Y int }\n"}),
 	}
 }
